@@ -307,6 +307,19 @@ def generate():
         mm = re.search(pat, hbody, flags=re.S)
         I(coq, codes.get(mm.group(1), 0) if mm else 0, f)
 
+    # ---- relay path: body-collection failure statuses, response marker (C14 / C15) ----
+    # TOLERANT like the block above: 0 / empty when the statement is no longer found.
+    whole = strip_comments(src(f))
+    sm = re.search(r"async fn handle_request_with_signature\b(.*?)\n    \}\n", whole, flags=re.S)
+    sbody = sm.group(1) if sm else ""
+    mm = re.search(r"body\.collect\(\)\.await\s*\{(?:(?!\n        \};).)*?Err\(\w+\)\s*=>(?:(?!\n        \};).)*?empty_response\(StatusCode::(\w+)\)", sbody, flags=re.S)
+    I("relay_status_body_error_signed", codes.get(mm.group(1), 0) if mm else 0, f)
+    mm = re.search(r"Self::convert_request\(proxy_request\)\.await\s*\{(?:(?!\n        \};).)*?Err\(\w+\)\s*=>(?:(?!\n        \};).)*?empty_response\(StatusCode::(\w+)\)", hbody, flags=re.S)
+    I("relay_status_body_error_exempt", codes.get(mm.group(1), 0) if mm else 0, f)
+    fm = re.search(r"async fn forward_response\b(.*?)\n    \}\n", whole, flags=re.S)
+    mm = re.search(r"HeaderName::from_static\(constants::AUTHORIZATION_HEADER\)\s*,\s*HeaderValue::from_static\(\"([^\"]*)\"\)", fm.group(1) if fm else "", flags=re.S)
+    S("response_marker_value", mm.group(1) if mm else "", f)
+
     lines = []
     lines.append("(* GENERATED by tools/gen_consts.py from /repo's current sources -- do not edit. *)")
     lines.append("From Coq Require Import List NArith.")
